@@ -19,6 +19,12 @@ pub fn reset_counts() {
         MADE[i].store(0, SeqCst);
     }
 }
+pub fn reset_id(id: u32) {
+    let i = id as usize % NIDS;
+    CLONES[i].store(0, SeqCst);
+    DROPS[i].store(0, SeqCst);
+    MADE[i].store(0, SeqCst);
+}
 pub fn counts(id: u32) -> (u32, u32, u32) {
     let i = id as usize % NIDS;
     (MADE[i].load(SeqCst), CLONES[i].load(SeqCst), DROPS[i].load(SeqCst))
